@@ -213,6 +213,11 @@ func (r *Run) Finish() int {
 	sort.Strings(classes)
 	exit := 0
 	unlisted := 0
+	if old, _ := filepath.Glob(filepath.Join(Root, "replays", r.Prop, "*.json")); len(old) > 0 {
+		for _, f := range old {
+			os.Remove(f)
+		}
+	}
 	var knownHit []string
 	for _, c := range classes {
 		v := r.viol[c]
@@ -352,3 +357,57 @@ func (r *Run) Vacuity(minOutcomes, minNontrivial int) int {
 
 // Evals returns the number of cases accounted so far.
 func (r *Run) Evals() int { return r.evals }
+
+// BFSNext is one successor reported by a worker: the canonical key of the state reached and the case that reaches it.
+type BFSNext struct {
+	Key  string          `json:"k"`
+	Case json.RawMessage `json:"c"`
+}
+
+// BFS runs a level-synchronous explicit-state search. Each case is executed by kind's worker, which
+// returns the canonical key of the state the case reaches (Result.Key) and the successors (Result.Next
+// holding BFSNext values). States are deduplicated by key; a state is expanded once. It returns true
+// if the frontier emptied (closure) and false if maxDepth stopped it.
+func (r *Run) BFS(kind string, roots []json.RawMessage, maxDepth int, onResult func(c json.RawMessage, res *Result)) (closure bool) {
+	seen := map[string]struct{}{}
+	frontier := roots
+	depth := 0
+	for len(frontier) > 0 {
+		if maxDepth >= 0 && depth > maxDepth {
+			r.Extra["bfs_max_depth"] = depth - 1
+			return false
+		}
+		if r.OverBudget() {
+			r.Extra["bfs_max_depth"] = depth - 1
+			return false
+		}
+		var next []json.RawMessage
+		Map(kind, frontier, func(i int, c json.RawMessage, res *Result) {
+			ok := r.Add(kind, c, res)
+			if onResult != nil {
+				onResult(c, res)
+			}
+			if !ok {
+				return
+			}
+			if res.Key != "" {
+				seen[res.Key] = struct{}{}
+			}
+			for _, n := range res.Next {
+				var bn BFSNext
+				if err := json.Unmarshal(n, &bn); err != nil {
+					continue
+				}
+				if _, dup := seen[bn.Key]; dup {
+					continue
+				}
+				seen[bn.Key] = struct{}{}
+				next = append(next, bn.Case)
+			}
+		})
+		frontier = next
+		depth++
+	}
+	r.Extra["bfs_max_depth"] = depth - 1
+	return true
+}
